@@ -44,6 +44,12 @@ pub struct Dir {
 pub struct Case {
     pub dirs: Vec<Dir>,
     pub stray_files: Vec<String>,
+    /// names (arbitrary bytes, usually not UTF-8) of further stray plain files and of
+    /// incomplete directories: they must be skipped like any other non-package entry
+    #[serde(default)]
+    pub raw_strays: Vec<B>,
+    #[serde(default)]
+    pub raw_incomplete_dirs: Vec<B>,
 }
 
 fn dir_name() -> BoxedStrategy<String> {
@@ -57,7 +63,21 @@ fn dir_name() -> BoxedStrategy<String> {
 }
 
 fn content() -> BoxedStrategy<String> {
-    prop::sample::select(vec!["", "A comment\n", "line1\nline2\n", "  padded  \n", "é ü\n", "12345\n", "@name foo-1.0\nbin/foo\n", "\n", "x"]).prop_map(String::from).boxed()
+    prop_oneof![
+        12 => prop::sample::select(vec!["", "A comment\n", "line1\nline2\n", "  padded  \n", "é ü\n", "12345\n", "@name foo-1.0\nbin/foo\n", "\n", "x"]).prop_map(String::from),
+        // longer than any internal read buffer, with multi-byte characters at arbitrary offsets
+        1 => (900usize..5000, 1usize..40, prop::sample::select(vec!["é", "€", "💖", "ü"])).prop_map(|(n, every, ch)| {
+            let mut s = String::new();
+            let mut k = 0usize;
+            while s.len() < n {
+                if k % every == every - 1 { s.push_str(ch); } else { s.push((b'a' + (k % 26) as u8) as char); }
+                k += 1;
+            }
+            s.push('\n');
+            s
+        }),
+    ]
+    .boxed()
 }
 
 fn dir() -> BoxedStrategy<Dir> {
@@ -82,7 +102,7 @@ fn dir() -> BoxedStrategy<Dir> {
 
 fn case_strategy(tier: Tier) -> BoxedStrategy<Case> {
     let max = tier.pick(6, 8);
-    (
+    let base = (
         // one tree in 250 (thorough: 60) is large (more entries than any internal batch size)
         prop_oneof![tier.pick(250, 60) => prop::collection::vec(dir(), 0..=max), 1 => prop::collection::vec(dir(), 130..300)],
         prop::collection::vec(prop::sample::select(vec!["pkgdb.byfile.db", "stray-1.0", "README", "+COMMENT", "foo-9.9"]).prop_map(String::from), 0..3),
@@ -92,7 +112,17 @@ fn case_strategy(tier: Tier) -> BoxedStrategy<Case> {
             let mut seen = std::collections::BTreeSet::new();
             let dirs: Vec<Dir> = dirs.into_iter().filter(|d| seen.insert(d.name.clone())).collect();
             let stray_files: Vec<String> = stray_files.into_iter().filter(|f| seen.insert(f.clone())).collect();
-            Case { dirs, stray_files }
+            Case { dirs, stray_files, raw_strays: vec![], raw_incomplete_dirs: vec![] }
+        })
+        .boxed();
+    let raw = || prop::collection::vec(prop::sample::select(vec![&b"\xff"[..], b"\x80-1.0", b"caf\xe9-2", b"\xc3(", b"x\xfe"]).prop_map(|b| B(b.to_vec())), 0..2);
+    (base, prop::option::weighted(0.3, (raw(), raw())))
+        .prop_map(|(mut c, r)| {
+            if let Some((a, b)) = r {
+                c.raw_strays = a;
+                c.raw_incomplete_dirs = b.into_iter().filter(|x| !c.raw_strays.contains(x)).collect();
+            }
+            c
         })
         .boxed()
 }
@@ -127,6 +157,19 @@ pub fn check(c: &Case, obs: &mut Obs) -> Result<(), String> {
     }
     for f in &c.stray_files {
         std::fs::write(root.0.join(f), "stray").map_err(|e| e.to_string())?;
+    }
+    {
+        use std::os::unix::ffi::OsStringExt;
+        let ok = |b: &B| !b.0.is_empty() && !b.0.contains(&b'/') && !b.0.contains(&0) && b.0 != b"." && b.0 != b"..";
+        for f in c.raw_strays.iter().filter(|b| ok(b)) {
+            let _ = std::fs::write(root.0.join(std::ffi::OsString::from_vec(f.0.clone())), "stray");
+        }
+        for d in c.raw_incomplete_dirs.iter().filter(|b| ok(b)) {
+            let p = root.0.join(std::ffi::OsString::from_vec(d.0.clone()));
+            if std::fs::create_dir(&p).is_ok() {
+                let _ = std::fs::write(p.join("+COMMENT"), "only a comment\n");
+            }
+        }
     }
     let want: BTreeMap<&str, &Dir> =
         c.dirs.iter().filter(|d| MANDATORY.iter().all(|m| d.files.contains_key(m))).map(|d| (d.name.as_str(), d)).collect();
